@@ -40,6 +40,17 @@ var ops = []struct {
 	{"if v, ok := st.M[\"a\"]; ok {\nj = v + 10\n} else {\nj = -1\n}", false},
 	{"pi = &i", false}, {"pi = &ar[1]", true}, {"pi = &st.N", false}, {"pi = &sl[0]", false}, {"*pi += 5", true}, {"pt = &st", true}, {"pt.N = 3", false}, {"*pt = su", true}, {"su = *pt", false},
 	{"pt = &as[1]", false}, {"st.P = pi", false}, {"*st.P = 1", false}, {"pt.A[0] = 2", false}, {"pt.S = nil", false},
+	// second generation: composite literals reading their own destination, append onto a prefix of its own arguments,
+	// named results reading the destination, method values (receiver copied when the value is made), copies through pointers,
+	// range over an array of structs while an element is assigned
+	{"ar = [3]int{ar[2], ar[1], ar[0]}", true}, {"st.A = [2]int{st.A[1], st.A[0]}", false}, {"br = [3]int{ar[0], ar[1], ar[2]}", false},
+	{"st = T{N: st.A[0], A: [2]int{st.N, st.A[1]}, S: st.S, M: st.M, P: st.P}", true}, {"as = [2]T{as[1], as[0]}", false}, {"sl = []int{sl[2], sl[1], sl[0]}", false},
+	{"st, su = T{N: su.N, A: su.A, S: su.S, M: su.M, P: su.P}, T{N: st.N, A: st.A, S: st.S, M: st.M, P: st.P}", false},
+	{"sl = append(sl[:0], sl[1], sl[0])", true}, {"sl = append(sl[:1], sl...)", false},
+	{"ar = func() (res [3]int) {\nres[0] = ar[2]\nres[2] = ar[0]\nreturn\n}()", false}, {"st = func() (res T) {\nres = su\nres.N = st.N + 1\nreturn\n}()", false},
+	{"{\nmv := st.get\nst.N = 40\ni = mv()\n}", true}, {"{\nmset := pt.set\npt = &as[0]\nmset(i)\n}", false}, {"{\nme := T.get\ni = me(st)\n}", false},
+	{"{\npa := &ar\nbr = *pa\npa[0] = 55\n}", false}, {"{\nc := ar\npa := &c\npa[1] = 66\nbr = c\n}", false},
+	{"for k, t := range as {\nas[1].N = 70 + k\nj += t.N\n}", false}, {"for k, v := range &ar {\nar[2] = 30 + k\nj += v\n}", false},
 	{"i, j = j, i", false}, {"sl[0], sl[1] = sl[1], sl[0]", false}, {"ar[i%3], i = i, ar[i%3]", true}, {"st.N, su.N = su.N, st.N", false}, {"i, sl[i%2] = 1, 9", false}, {"ar, br = br, ar", false}, {"st, su = su, st", false},
 }
 
@@ -67,6 +78,10 @@ func retT(t T) T {
 	t.A[1] += 1
 	return t
 }
+
+func (t T) get() int { return t.N*10 + t.A[0] }
+
+func (t *T) set(v int) { t.N = v; t.A[1] = v }
 
 func retA(a [3]int) [3]int {
 	a[0] += 10
